@@ -22,7 +22,7 @@ ASSUMPTIONS = ["ties within 1e-9 at a beam cut or at the pre-selection threshold
                "such runs are only checked for distinctness and the upper bound",
                "scores are compared with tolerance 1e-9*(1+|x|)"]
 
-LETTERS = list("abcdefghijklmnop")
+LETTERS = list("abcdefghijklmnop") + [chr(0x4e00 + i) for i in range(320)]
 _LONG_LIVED = {}
 
 
@@ -187,6 +187,25 @@ def body_unnorm(ctx, case):
                       lambda: "%s decoded a matrix whose row %d sums to %r: %s" % (name, row % T, 1 + delta, render_matrix(M)))
         elif dev < 1e-6:
             ctx.check(raised is None, "normalised_input_rejected", lambda: "%s rejected deviation %r" % (name, delta))
+    # a decoder of this worker on which an earlier call asked for a looser tolerance (max_unnormalization is a per-call
+    # argument): a later call with the default must still reject un-normalised input
+    key = ("tolerant", C, k)
+    if key not in _LONG_LIVED:
+        _LONG_LIVED[key] = CTCPrefixLogRawNumpyDecoder(letters_for(C), k)
+    try:
+        with np.errstate(all="ignore"):
+            _LONG_LIVED[key](M.copy(), max_unnormalization=np.inf)
+    except Exception:  # noqa: BLE001 - what the tolerant call itself does is not this property's business
+        pass
+    if dev > 1e-4:
+        try:
+            with np.errstate(all="ignore"):
+                _LONG_LIVED[key](M.copy())
+            rejected = False
+        except ValueError:
+            rejected = True
+        ctx.check(rejected, "unnormalised_input_decoded_after_an_earlier_tolerant_call",
+                  lambda: "row %d sums to %r: %s" % (row % T, 1 + delta, render_matrix(M)))
     ctx.event("rejected" if dev > 1e-4 else "accepted")
     if dev > 1e-4 and T >= 2:
         ctx.nontrivial(("unnorm", M.tobytes(), row, delta, k))
